@@ -20,6 +20,7 @@ Step ==
     /\ LET e == Trace[l] c == e.case msg == e.msg opts == e.opts ok == e.err = "" IN
        /\ Check("C17.parses", c, l, ok /\ e.plainErr = "")
        /\ Check("C17.alerts", c, l, ok => C17_Alerts(msg.ents, opts, e.res))
+       /\ Check("C17.groups-are-per-message", c, l, ok => (e.againErr = "" /\ e.again = e.res))
        /\ Check("C17.plain-alerts-pass-through", c, l,
                 (ok /\ e.plainErr = "" /\ \A i \in DOMAIN msg.ents : PlainAlert(msg.ents[i])) => e.full = e.plain)
     /\ l' = l + 1
